@@ -37,6 +37,7 @@ impl std::fmt::Debug for Mac {
 #[derive(Debug)]
 pub struct LoopInfo {
     index0: usize,
+    len: usize,
     /// the for node to re-enter on `loop(x)` when the loop is recursive
     recursive: Option<Rc<ForNode>>,
 }
@@ -305,11 +306,34 @@ impl Interp {
             Expr::Var(n) => self.lookup(n),
             Expr::List(xs) => V::List(xs.iter().map(|x| self.eval(x)).collect::<Result<_, _>>()?),
             Expr::Not(a) => V::Bool(!truthy(&self.eval(a)?)),
+            // `and` / `or` give back one of their operands and evaluate the right one only when needed
+            Expr::Bin("and", a, b) => {
+                let x = self.eval(a)?;
+                if truthy(&x) {
+                    self.eval(b)?
+                } else {
+                    x
+                }
+            }
+            Expr::Bin("or", a, b) => {
+                let x = self.eval(a)?;
+                if truthy(&x) {
+                    x
+                } else {
+                    self.eval(b)?
+                }
+            }
             Expr::Bin(op, a, b) => {
                 let (x, y) = (self.eval(a)?, self.eval(b)?);
                 match (*op, &x, &y) {
                     ("+", V::Int(p), V::Int(q)) => V::Int(p.checked_add(*q).ok_or_else(|| RErr::Fail("overflow".into()))?),
                     (">", V::Int(p), V::Int(q)) => V::Bool(p > q),
+                    ("<", V::Int(p), V::Int(q)) => V::Bool(p < q),
+                    (">=", V::Int(p), V::Int(q)) => V::Bool(p >= q),
+                    ("<=", V::Int(p), V::Int(q)) => V::Bool(p <= q),
+                    ("==", V::Int(p), V::Int(q)) => V::Bool(p == q),
+                    ("!=", V::Int(p), V::Int(q)) => V::Bool(p != q),
+                    ("==", V::Str(p), V::Str(q)) => V::Bool(p == q),
                     ("+", ..) => return Err(RErr::Fail(format!("cannot add {:?} and {:?}", x, y))),
                     _ => return Err(RErr::Undefined(format!("operator {} on {:?}, {:?}", op, x, y))),
                 }
@@ -319,6 +343,11 @@ impl Interp {
                 V::Loop(l) => match *name {
                     "index" => V::Int(l.index0 as i64 + 1),
                     "index0" => V::Int(l.index0 as i64),
+                    "length" => V::Int(l.len as i64),
+                    "first" => V::Bool(l.index0 == 0),
+                    "last" => V::Bool(l.index0 + 1 == l.len),
+                    "revindex" => V::Int((l.len - l.index0) as i64),
+                    "revindex0" => V::Int((l.len - l.index0 - 1) as i64),
                     other => return Err(RErr::Undefined(format!("loop.{}", other))),
                 },
                 V::Undef => return Err(RErr::Fail(format!("attribute {} of undefined", name))),
@@ -495,6 +524,7 @@ impl Interp {
             items = kept;
         }
         let iterated = !items.is_empty();
+        let n_items = items.len();
         self.stack.push(Frame::default());
         let mut result = Ok(());
         for (i, it) in items.into_iter().enumerate() {
@@ -503,7 +533,7 @@ impl Interp {
                 // every iteration starts with a clean scope
                 top.vars.clear();
                 top.closure = None;
-                top.loop_ = Some(Rc::new(LoopInfo { index0: i, recursive: if recursive { Some(node.clone()) } else { None } }));
+                top.loop_ = Some(Rc::new(LoopInfo { index0: i, len: n_items, recursive: if recursive { Some(node.clone()) } else { None } }));
             }
             if let Err(e) = self.bind_targets(&node.targets, it) {
                 result = Err(e);
